@@ -161,6 +161,9 @@ func (i *IPFIX) run() {
 		ipfixUDPCh <- IPFIXUDPMsg{raddr, b[:n]}
 	}
 
+	// the read loop is the only sender on the UDP channel: it closes the channel
+	// itself once it has left the loop (a close from shutdown could hit a send in flight)
+	close(ipfixUDPCh)
 }
 
 func (i *IPFIX) shutdown() {
@@ -179,9 +182,8 @@ func (i *IPFIX) shutdown() {
 		logger.Println("couldn't not dump template", err)
 	}
 
-	// logging and close UDP channel
+	// logging (the UDP channel is closed by the read loop)
 	logger.Println("ipfix has been shutdown")
-	close(ipfixUDPCh)
 }
 
 func (i *IPFIX) ipfixWorker(wQuit chan struct{}) {
